@@ -72,3 +72,19 @@ Theorem C02_plan_projects : forall rs ann ru now items rp,
   zlen (rp_del_unavailable rp) = a_old_notready s /\ zlen (rp_del_available rp) = a_old_ready s.
 Proof. exact plan_projects. Qed.
 Print Assumptions C02_plan_projects.
+
+(** ... and the state after the sync: [synced] says what the calls of a sync do to the planning items (a created pod is
+    up to date and not Ready yet - C10_roundtrip; a pod whose deletion was requested is terminating; nothing else
+    changes).  For EVERY admissible choice of the runtime (every map order), the items after the sync abstract to
+    [a_sync] of the abstraction of the items before: the controller's half of an abstract round is exactly what the sync
+    model does.  The other half, [a_settle] (terminating pods disappear, created pods become Ready), is the kubelet. *)
+Theorem C02_sync_projects : forall rs ann ru now items items' rp creates deletes,
+  NoDup (map ni_name items) ->
+  rolling_plan_of rs ann ru now items = Ok rp ->
+  rp_paused rp = false -> rp_frozen rp = false ->
+  count_if (is_class c_unresp rs now) items = 0 -> 0 <= rp_max_sched_failure rp ->
+  admissible_creates rp creates = true -> admissible_deletes rp deletes = true ->
+  synced rs now creates deletes items items' ->
+  abs_of rs now items' = a_sync (abs_of rs now items) (rp_max_creation rp) (rp_max_unavailable rp).
+Proof. exact sync_projects. Qed.
+Print Assumptions C02_sync_projects.
